@@ -1,6 +1,6 @@
-\* strict: one word, the C26 invariants are TLC invariants
+\* batch: many words separated by reset events; violated invariants are printed per word
 SPECIFICATION TSpec
-INVARIANT HomeIsChosen WrittenByChosen
+INVARIANT ReportViolations
 POSTCONDITION Accepted
 CHECK_DEADLOCK FALSE
 CONSTANTS
